@@ -24,7 +24,10 @@ WORDS = [u"alpha", u"Bravo", u"CHARLIE", u"running", u"runs", u"ran", u"librarie
          u"PowerShot", u"SD500", u"snake_case", u"don't", u"O'Neil", u"http://example.com/a?b=1&c=2",
          u"user@example.org", u"x" * 60, u"ab", u"abc", u"abcd", u"C++", u"AT&T", u"e.g.", u"U.S.A.", u"\U0001F600",
          u"ﬁne", u"İstanbul", u"ǅ", u"ß", u"fooBar", u"foo-bar-baz", u"R2D2", u"quick", u"brown", u"fox", u"jumped",
-         u"a<b", u"x&lt;y", u"<i>tag</i>", u"Q&A", u"5>3"]
+         u"a<b", u"x&lt;y", u"<i>tag</i>", u"Q&A", u"5>3",
+         # text that is not in a normal form: letters followed by combining marks, conjoining Hangul jamo, a
+         # compatibility character (the index and the queries must use the very same code points)
+         u"cafe\u0301", u"nai\u0308ve", u"A\u030a", u"\u1112\u1161\u11ab\u1100\u1173\u11af", u"\u212b", u"e\u0301\u0323"]
 SEPS = [u" ", u" ", u" ", u", ", u". ", u"\n", u" - ", u"; ", u"\t", u" / ", u"! ", u" (", u") "]
 
 
